@@ -1,0 +1,5 @@
+//go:build !verif
+
+package redisemu
+
+func verifPoint(point string, id int64, n int) {}
